@@ -2,9 +2,12 @@ package main
 
 // C04: histories of announcements, re-announcements with a changed definition and data sets from
 // several exporters (4-octet, IPv4-mapped and IPv6 addresses), including exporter/id pairs searched
-// to collide under the cache's 32-bit FNV-1 key. Oracle: a reference map keyed by (address, id) kept
-// by the generator — every data set must decode with exactly the template that map holds, and data
-// for a template its exporter never announced must be reported unknown and yield no records.
+// to collide under the 32-bit FNV-1 hash that picks the cache shard (and that, before the K1 repair,
+// was the whole key: the two pairs shared one entry). Oracle: a reference map keyed by (address, id)
+// kept by the generator — every data set must decode with exactly the template that map holds, and
+// data for a template its exporter never announced must be reported unknown and yield no records —
+// for the colliding pairs like for any other: a failure on one of them is an ordinary failure
+// (`fail:hash-collision …`, matched by no known finding).
 
 import (
 	"bufio"
@@ -31,22 +34,31 @@ type keyPair struct {
 	hash uint32
 }
 
-// birthday search for two distinct (addr, id) keys with equal FNV-1 (different exporters)
+// birthday search for two distinct (addr, id) keys with equal FNV-1 (different exporters); the addresses are 4-octet
+// IPv4, IPv4-mapped 16-octet or IPv6 ones, the two of a pair not necessarily of the same form
 func findCollision(r *rand.Rand) keyPair {
-	seen := map[uint32][2]uint32{} // hash -> (addr as u32, id)
+	type cand struct {
+		a  string
+		id int
+	}
+	seen := map[uint32]cand{}
 	for {
-		a := make([]byte, 4)
-		a[0] = 10
-		a[1], a[2], a[3] = byte(r.Intn(256)), byte(r.Intn(256)), byte(r.Intn(256))
+		x, y, z := byte(r.Intn(256)), byte(r.Intn(256)), byte(r.Intn(256))
+		var a []byte
+		switch r.Intn(4) {
+		case 0:
+			a = []byte{0, 0, 0, 0, 0, 0, 0, 0, 0, 0, 0xff, 0xff, 10, x, y, z}
+		case 1:
+			a = []byte{0x20, 0x01, 0x0d, 0xb8, 0, 0, 0, 0, 0, 0, 0, 0, 0, x, y, z}
+		default:
+			a = []byte{10, x, y, z}
+		}
 		id := 256 + r.Intn(4000)
 		h := fnvKey(a, id)
-		au := binary.BigEndian.Uint32(a)
-		if p, ok := seen[h]; ok && p[0] != au {
-			b := make([]byte, 4)
-			binary.BigEndian.PutUint32(b, p[0])
-			return keyPair{b, int(p[1]), a, id, h}
+		if p, ok := seen[h]; ok && p.a != string(a) {
+			return keyPair{[]byte(p.a), p.id, a, id, h}
 		}
-		seen[h] = [2]uint32{au, uint32(id)}
+		seen[h] = cand{string(a), id}
 	}
 }
 
@@ -210,7 +222,8 @@ func (p *flowProto) runHist(st *state, line, expect string) (string, string) {
 		return ln, "ok"
 	}
 	if k1 != "" {
-		// the generator says the two keys collide: verify it independently, then name the finding
+		// the generator says the two keys collide: verify it independently, then say so in the verdict (since the K1
+		// repair no known finding matches it: a violation like any other)
 		var a1, a2 string
 		var i1, i2 int
 		kk := strings.Fields(k1)
